@@ -213,7 +213,9 @@ func handlePanic(t *T, recovered any) {
 
 	err, isError := recovered.(error)
 	switch {
-	case isError && errors.Is(err, errFailNow):
+	// compare identity: errors.Is would let any error with a permissive Is method
+	// pass for FailNow and be swallowed without marking the failure
+	case isError && err == errFailNow: //nolint:errorlint // identity is intended
 		return
 	case isError:
 		stack := debug.Stack()
